@@ -854,3 +854,87 @@ func VerifMatcherHistory(sets [][]string, reqs []VerifHistReq, tac bool) [][]int
 	m.Stop()
 	return out
 }
+
+// VerifHistAnswer is what one request of a history was answered with.
+type VerifHistAnswer struct {
+	Idx     []int32 // matched item indices in result order ([-1]: no answer)
+	Items   []int32 // the item indices of the snapshot the request was made on
+	Changed bool    // Snapshot reported that items were dropped (--tail)
+	Minor   int     // minor revision the request carried
+}
+
+// VerifMatcherHistoryOpts is VerifMatcherHistory with the matching mode (fuzzy or exact) and
+// --tail: the list is trimmed by Snapshot, and, as the coordinator in core.go does, the minor
+// revision is bumped whenever Snapshot reports that it dropped items.
+func VerifMatcherHistoryOpts(sets [][]string, reqs []VerifHistReq, tac bool, fuzzy bool, tail int) []VerifHistAnswer {
+	sortCriteria = []criterion{byScore, byLength}
+	cache := NewChunkCache()
+	eventBox := util.NewEventBox()
+	patternCache := make(map[string]*Pattern)
+	builder := func(runes []rune) *Pattern {
+		return BuildPattern(cache, patternCache, fuzzy, algo.FuzzyMatchV2, true, CaseSmart, true, true, false, true,
+			nil, Delimiter{}, revision{}, runes, map[int32]struct{}{})
+	}
+	m := NewMatcher(cache, builder, true, tac, eventBox, revision{})
+	go m.Loop()
+	lists := map[int]*ChunkList{}
+	pushed := map[int]int{}
+	rev := revision{}
+	curSet := -1
+	out := []VerifHistAnswer{}
+	for _, r := range reqs {
+		if r.Set != curSet {
+			if curSet >= 0 {
+				rev.bumpMajor()
+			}
+			curSet = r.Set
+			var idx int32
+			lists[r.Set] = NewChunkList(cache, func(item *Item, data []byte) bool {
+				item.text = util.ToChars(data)
+				item.text.Index = idx
+				idx++
+				return true
+			})
+			pushed[r.Set] = 0
+		}
+		for pushed[r.Set] < r.Upto && pushed[r.Set] < len(sets[r.Set]) {
+			lists[r.Set].Push([]byte(sets[r.Set][pushed[r.Set]]))
+			pushed[r.Set]++
+		}
+		snapshot, _, changed := lists[r.Set].Snapshot(tail)
+		if changed {
+			rev.bumpMinor()
+		}
+		ans := VerifHistAnswer{Changed: changed, Minor: int(rev.minor)}
+		for _, c := range snapshot {
+			for k := 0; k < c.count; k++ {
+				ans.Items = append(ans.Items, c.items[k].Index())
+			}
+		}
+		m.Reset(snapshot, []rune(r.Query), true, r.Final, r.Sort, rev)
+		got := make(chan *Merger, 1)
+		go func() {
+			eventBox.Wait(func(events *util.Events) {
+				for evt, val := range *events {
+					if evt == EvtSearchFin {
+						got <- val.(*Merger)
+					}
+				}
+				events.Clear()
+			})
+		}()
+		select {
+		case mg := <-got:
+			ans.Idx = []int32{}
+			for i := 0; i < mg.Length(); i++ {
+				ans.Idx = append(ans.Idx, mg.Get(i).item.Index())
+			}
+		case <-time.After(5 * time.Second):
+			eventBox.Set(EvtQuit, nil)
+			ans.Idx = []int32{-1}
+		}
+		out = append(out, ans)
+	}
+	m.Stop()
+	return out
+}
